@@ -212,5 +212,32 @@ TEXTS = {
                  "pub(crate) and are not exercised on the real code by this check."),
         "technique": "Coq proof (string-level parser inversion, refinement of a state machine to a history specification by invariant) + refutation witnesses + extracted-model differential testing incl. exhaustive short version texts",
     },
+    "C09": {
+        "text": ("Three layers. (L) Coq theorems, for all inputs, over a line-by-line model of the export-subset lattice "
+                 "of the public-range tracer (NamedSubset / Exports / ImportedExports, range_finder.rs:41-278): with den(x) the "
+                 "set of qualified export paths x covers, extend/add lose nothing (sound), report every requested and "
+                 "not-yet-traced path in the returned difference (covers - an under-approximation would be an untraced "
+                 "export), report nothing that was not requested (no_more), and a difference that denotes anything "
+                 "strictly grows a bounded measure (worklist termination); add/add_qualified/from_parts/add_named are "
+                 "characterised denotationally; the IndexMap invariant is preserved. DESIGN's exactness laws are refuted "
+                 "in one class (a qualified `default` meets Star: the code over-approximates to StarWithDefault) and "
+                 "proved outside it. The model is tied to the private Rust types through the cfg-guarded hooks: random "
+                 "operation sequences and ALL pairs of small lattice elements, compared structurally. (P) A decision "
+                 "procedure closedb, proved equivalent to the declarative statement Closed (parses; no module-level "
+                 "identifier of the original left unresolved; every imported/re-exported name exported by the target's "
+                 "emitted text through export-star chains; relative specifiers resolve; source map well formed, in "
+                 "range and identifier-preserving), judges the facts of EVERY real emitted module of the 143 corpus "
+                 "specs and of hundreds/thousands of generated multi-package worlds. (T) The tracer and the SWC "
+                 "transform themselves are not modelled: that all outputs are closed is checked per output, not proved. "
+                 "One genuine closure defect is recorded (F-C09a: ambient classes keep private members whose types "
+                 "reference declarations that were never traced; present in the repository's own spec corpus)."),
+        "design_ref": "DESIGN.md section 5 'C09 - C11 shared machinery' (L) and 'C09' (per-output decision)",
+        "note": ("Trusted: Coq kernel; extraction; the harness's fact extraction (deno_ast re-parse with SWC scope "
+                 "analysis, export-table reading, own base64-VLQ decoder, identifier tokenisation by columns in UTF-16 "
+                 "units) and its JSON<->s-expression conversion of lattice values; the hooks in /repo are thin wrappers. "
+                 "Source maps: checked, not proved. Partial: no theorem about analyze_module_info / "
+                 "resolve_deps_with_namespace / transform."),
+        "technique": "Coq proof (mutual induction over the lattice, denotational laws, measure) + exhaustive/random differential testing through hooks + proved decision procedure run on real fast-check outputs",
+    },
 }
 NOT_YET = {}
